@@ -1,1 +1,842 @@
-fn main(){}
+//! CL03 drivers (properties C13 .. C19): every driver runs the real library
+//! (feature cl03) systematically -- all hidden-position subsets, all mismatch
+//! families, every integer leaf of the serialised proofs -- and logs one event
+//! per observation.  TLC validates the log against Trace_CL.tla, whose
+//! predictions come from CLProofs.tla / CLToy.tla.  The drivers never decide.
+
+mod util;
+
+use sha2::digest::Digest;
+use rug::{ops::Pow, Complete, Integer};
+use serde_json::{json, Value};
+use sha2::Sha256;
+use std::panic::{catch_unwind, AssertUnwindSafe};
+use std::sync::Mutex;
+use util::*;
+use zkryptium::cl03::bases::Bases;
+use zkryptium::cl03::ciphersuites::{CL1024Sha256, CL2048Sha256, CLCiphersuite};
+use zkryptium::cl03::keys::{CL03CommitmentPublicKey, CL03PublicKey, CL03SecretKey};
+use zkryptium::cl03::range_proof::Boudot2000RangeProof;
+use zkryptium::keys::pair::KeyPair;
+use zkryptium::schemes::algorithms::{Ciphersuite, CL03};
+use zkryptium::schemes::generics::{BlindSignature, Commitment, PoKSignature, Signature, ZKPoK};
+use zkryptium::utils::message::cl03_message::CL03Message;
+use zkryptium::verif_hooks;
+
+pub struct KeySet {
+    pub pk: CL03PublicKey,
+    pub sk: CL03SecretKey,
+    pub bases: Bases,
+    pub cpk_issuer: CL03CommitmentPublicKey, // commitment key over the issuer modulus
+    pub cpk_own: CL03CommitmentPublicKey,    // commitment key over its own modulus (trusted party)
+}
+
+fn gen_keys<C: CLCiphersuite>(count: usize, nattr: usize) -> Vec<KeySet>
+where
+    C::HashAlg: Digest,
+{
+    let out = Mutex::new(Vec::new());
+    std::thread::scope(|sc| {
+        for _ in 0..count {
+            sc.spawn(|| {
+                let kp = KeyPair::<CL03<C>>::generate();
+                let (sk, pk) = kp.into_parts();
+                let bases = Bases::generate(&pk, nattr);
+                let cpk_issuer = CL03CommitmentPublicKey::generate::<C>(Some(pk.N.clone()), Some(nattr));
+                let cpk_own = CL03CommitmentPublicKey::generate::<C>(None, Some(nattr));
+                out.lock().unwrap().push(KeySet { pk, sk, bases, cpk_issuer, cpk_own });
+            });
+        }
+    });
+    out.into_inner().unwrap()
+}
+
+fn guard<T>(f: impl FnOnce() -> T) -> Result<T, String> {
+    catch_unwind(AssertUnwindSafe(f)).map_err(|p| {
+        if let Some(s) = p.downcast_ref::<&str>() {
+            s.to_string()
+        } else if let Some(s) = p.downcast_ref::<String>() {
+            s.clone()
+        } else {
+            "panic".into()
+        }
+    })
+}
+fn b3(r: Result<bool, String>) -> Value {
+    match r {
+        Ok(true) => json!("true"),
+        Ok(false) => json!("false"),
+        Err(_) => json!("panic"),
+    }
+}
+
+fn attrs<C: CLCiphersuite>(rng: &mut Rng, n: usize) -> Vec<CL03Message> {
+    (0..n)
+        .map(|i| {
+            let v = match (rng.below(8), i) {
+                (0, _) => Integer::from(0),
+                (1, _) => Integer::from(1),
+                (2, _) => Integer::from(2).pow(C::lm) - 1,
+                _ => rng.bits(C::lm),
+            };
+            CL03Message::new(v)
+        })
+        .collect()
+}
+
+fn subsets(n: usize) -> Vec<Vec<usize>> {
+    (0..(1usize << n)).map(|m| (0..n).filter(|i| m >> i & 1 == 1).collect()).collect()
+}
+
+// ---------------------------------------------------------------------------- C13
+fn drv_sig<C: CLCiphersuite>(keys: &[KeySet], seed: u64, thorough: bool, derivs: &[Value], ev: &mut Vec<Value>)
+where
+    C::HashAlg: Digest,
+{
+    let mut rng = Rng::new(seed);
+    let suite = C::SECPARAM * 2;
+    for (ki, ks) in keys.iter().enumerate() {
+        let other = &keys[(ki + 1) % keys.len()];
+        for n in 1..=5usize {
+            let msgs = attrs::<C>(&mut rng, n);
+            let sig = Signature::<CL03<C>>::sign_multiattr(&ks.pk, &ks.sk, &ks.bases, &msgs);
+            let s = sig.cl03Signature().clone();
+            let (e, sv, v) = sig_parts(&s);
+            // facts about e (property C13: prime, exactly le bits, coprime to the group order)
+            let phi = (ks.sk.p.clone() - 1u32) * (ks.sk.q.clone() - 1u32);
+            ev.push(json!({"op": "CLSigFacts", "suite": suite, "key": ki, "n": n,
+                "e_prime": miller_rabin(&e, 24), "e_bits": e.significant_bits(), "le": C::le, "e_coprime": e.clone().gcd(&phi) == 1,
+                "s_bits": sv.significant_bits(), "ls": C::ls}));
+            let honest = guard(|| sig.verify_multiattr(&ks.pk, &ks.bases, &msgs));
+            ev.push(json!({"op": "CLVerify", "suite": suite, "key": ki, "n": n, "mode": "multi", "alpha": vec![0; n], "beta": 0, "edit": "none", "stmt": "same", "res": b3(honest)}));
+            // encodings
+            let rt = guard(|| {
+                let b = sig.to_bytes();
+                let s2 = Signature::<CL03<C>>::from_bytes(&b);
+                let j = serde_json::to_string(&sig).unwrap();
+                let s3: Signature<CL03<C>> = serde_json::from_str(&j).unwrap();
+                s2 == sig && s3 == sig && s2.verify_multiattr(&ks.pk, &ks.bases, &msgs)
+            });
+            ev.push(json!({"op": "CLRoundTrip", "suite": suite, "what": "signature", "key": ki, "n": n, "res": b3(rt)}));
+            // single-attribute interface
+            if n == 1 {
+                let sg = Signature::<CL03<C>>::sign(&ks.pk, &ks.sk, &ks.bases, &msgs[0]);
+                ev.push(json!({"op": "CLVerify", "suite": suite, "key": ki, "n": 1, "mode": "single", "alpha": [0], "beta": 0, "edit": "none", "stmt": "same", "res": b3(guard(|| sg.verify(&ks.pk, &ks.bases, &msgs[0])))}));
+                let mut m2 = msgs[0].clone();
+                m2.value += 1;
+                ev.push(json!({"op": "CLVerify", "suite": suite, "key": ki, "n": 1, "mode": "single", "alpha": [0], "beta": 0, "edit": "none", "stmt": "attr_changed", "res": b3(guard(|| sg.verify(&ks.pk, &ks.bases, &m2)))}));
+                // derived pair through the single-attribute verifier
+                let (e1, s1, v1) = sig_parts(sg.cl03Signature());
+                let v2 = (v1 * &ks.bases.0[0]).modulo(&ks.pk.N);
+                let forged: Signature<CL03<C>> = make_sig(&e1, &s1, &v2);
+                let m3 = CL03Message::new((&msgs[0].value + &e1).complete());
+                ev.push(json!({"op": "CLVerify", "suite": suite, "key": ki, "n": 1, "mode": "single", "alpha": [1], "beta": 0, "edit": "none", "stmt": "derived", "res": b3(guard(|| forged.verify(&ks.pk, &ks.bases, &m3)))}));
+            }
+            // selective disclosure of bases: every subset (n <= 4)
+            if n <= 4 {
+                for u in subsets(n) {
+                    let r = guard(|| {
+                        let (m2, b2) = sig.disclose_selectively(&msgs, Bases(ks.bases.0[..n].to_vec()), &ks.pk, &u);
+                        sig.verify_multiattr(&ks.pk, &b2, &m2)
+                    });
+                    ev.push(json!({"op": "CLDisclose", "suite": suite, "key": ki, "n": n, "U": u, "res": b3(r)}));
+                }
+            }
+            // derivations enumerated by the specification (slice cl_sig): v' = v * prod a_i^alpha_i * b^beta,
+            // m'_i = m_i + alpha_i * e, s' = s + beta * e
+            for d in derivs {
+                let alpha: Vec<i64> = d["alpha"].as_array().unwrap().iter().map(|x| x.as_i64().unwrap()).collect();
+                if alpha.len() != n {
+                    continue;
+                }
+                let beta = d["beta"].as_i64().unwrap();
+                let mut v2 = v.clone();
+                let mut m2 = msgs.clone();
+                for i in 0..n {
+                    v2 = (v2 * pow_signed(&ks.bases.0[i], alpha[i], &ks.pk.N)).modulo(&ks.pk.N);
+                    m2[i].value += Integer::from(alpha[i]) * &e;
+                }
+                v2 = (v2 * pow_signed(&ks.pk.b, beta, &ks.pk.N)).modulo(&ks.pk.N);
+                let s2 = sv.clone() + Integer::from(beta) * &e;
+                let forged: Signature<CL03<C>> = make_sig(&e, &s2, &v2);
+                let r = guard(|| forged.verify_multiattr(&ks.pk, &ks.bases, &m2));
+                ev.push(json!({"op": "CLVerify", "suite": suite, "key": ki, "n": n, "mode": "multi", "alpha": alpha, "beta": beta, "edit": "none", "stmt": "derived", "res": b3(r)}));
+            }
+            // statement edits
+            let mut stm: Vec<(&str, Vec<CL03Message>)> = vec![];
+            let mut c = msgs.clone();
+            c[n - 1].value += 1;
+            stm.push(("attr_changed", c));
+            let mut c = msgs.clone();
+            c[0].value = Integer::from(2).pow(C::lm) + &msgs[0].value;
+            stm.push(("attr_oversized", c));
+            let mut c = msgs.clone();
+            c[0].value = Integer::from(-1) - &msgs[0].value;
+            stm.push(("attr_negative", c));
+            if n >= 2 && msgs[0] != msgs[1] {
+                let mut c = msgs.clone();
+                c.swap(0, 1);
+                stm.push(("attrs_swapped", c));
+            }
+            if n >= 2 {
+                stm.push(("attr_removed", msgs[..n - 1].to_vec()));
+            }
+            for (name, m2) in stm {
+                ev.push(json!({"op": "CLVerify", "suite": suite, "key": ki, "n": n, "mode": "multi", "alpha": vec![0; n], "beta": 0, "edit": "none", "stmt": name, "res": b3(guard(|| sig.verify_multiattr(&ks.pk, &ks.bases, &m2)))}));
+            }
+            // signature component edits
+            let nm1 = (&ks.pk.N - &v).complete();
+            let two_le = Integer::from(2).pow(C::le);
+            let edits: Vec<(&str, Integer, Integer, Integer)> = vec![
+                ("e+1", e.clone() + 1, sv.clone(), v.clone()),
+                ("e-1", e.clone() - 1, sv.clone(), v.clone()),
+                ("e=0", Integer::from(0), sv.clone(), v.clone()),
+                ("e=1", Integer::from(1), sv.clone(), v.clone()),
+                ("e+2^le", (&e + &two_le).complete(), sv.clone(), v.clone()),
+                ("s+1", e.clone(), sv.clone() + 1, v.clone()),
+                ("s-1", e.clone(), sv.clone() - 1, v.clone()),
+                ("s=0", e.clone(), Integer::from(0), v.clone()),
+                ("v+1", e.clone(), sv.clone(), v.clone() + 1),
+                ("v=0", e.clone(), sv.clone(), Integer::from(0)),
+                ("v=1", e.clone(), sv.clone(), Integer::from(1)),
+                ("v=N-v", e.clone(), sv.clone(), nm1),
+            ];
+            for (name, e2, s2, v2) in edits {
+                let f: Signature<CL03<C>> = make_sig(&e2, &s2, &v2);
+                ev.push(json!({"op": "CLVerify", "suite": suite, "key": ki, "n": n, "mode": "multi", "alpha": vec![0; n], "beta": 0, "edit": name, "stmt": "same", "res": b3(guard(|| f.verify_multiattr(&ks.pk, &ks.bases, &msgs)))}));
+            }
+            // other bases / other key
+            ev.push(json!({"op": "CLVerify", "suite": suite, "key": ki, "n": n, "mode": "multi", "alpha": vec![0; n], "beta": 0, "edit": "none", "stmt": "other_bases", "res": b3(guard(|| sig.verify_multiattr(&ks.pk, &other.bases, &msgs)))}));
+            ev.push(json!({"op": "CLVerify", "suite": suite, "key": ki, "n": n, "mode": "multi", "alpha": vec![0; n], "beta": 0, "edit": "none", "stmt": "other_key", "res": b3(guard(|| sig.verify_multiattr(&other.pk, &ks.bases, &msgs)))}));
+            if !thorough && n >= 3 {
+                break;
+            }
+        }
+    }
+}
+
+// ---------------------------------------------------------------------------- C14
+fn drv_blind<C: CLCiphersuite>(keys: &[KeySet], seed: u64, thorough: bool, leaf_stride: usize, ev: &mut Vec<Value>)
+where
+    C::HashAlg: Digest,
+{
+    let mut rng = Rng::new(seed ^ 0x14);
+    let suite = C::SECPARAM * 2;
+    let maxn = if thorough { 5 } else { 3 };
+    for (ki, ks) in keys.iter().enumerate() {
+        let other = &keys[(ki + 1) % keys.len()];
+        for n in 1..=maxn {
+            let msgs = attrs::<C>(&mut rng, n);
+            for u in subsets(n).into_iter().filter(|u| !u.is_empty()) {
+                for trusted in [false, true] {
+                    if trusted && !thorough && u.len() > 1 {
+                        continue;
+                    }
+                    let revealed_idx: Vec<usize> = (0..n).filter(|i| !u.contains(i)).collect();
+                    let revealed: Vec<CL03Message> = revealed_idx.iter().map(|&i| msgs[i].clone()).collect();
+                    let run = guard(|| {
+                        let commitment = Commitment::<CL03<C>>::commit_with_pk(&msgs, &ks.pk, &ks.bases, Some(&u));
+                        let ctrusted = if trusted { Some(Commitment::<CL03<C>>::commit_with_commitment_pk(&msgs, &ks.cpk_own, Some(&u))) } else { None };
+                        let zk = ZKPoK::<CL03<C>>::generate_proof(&msgs, commitment.cl03Commitment(), ctrusted.as_ref().map(|c| c.cl03Commitment()), &ks.pk, &ks.bases,
+                            if trusted { Some(&ks.cpk_own) } else { None }, &u);
+                        (commitment, ctrusted, zk)
+                    });
+                    let (commitment, ctrusted, zk) = match run {
+                        Ok(x) => x,
+                        Err(p) => {
+                            ev.push(json!({"op": "CLIssue", "suite": suite, "key": ki, "n": n, "U": u, "trusted": trusted, "mismatch": "none", "verify_proof": "panic", "signed": false, "verifies": false, "detail": p}));
+                            continue;
+                        }
+                    };
+                    let ct = ctrusted.as_ref().map(|c| c.cl03Commitment());
+                    let cpk = if trusted { Some(&ks.cpk_own) } else { None };
+                    let vp = guard(|| zk.verify_proof(commitment.cl03Commitment(), ct, &ks.pk, &ks.bases, cpk, &u));
+                    let issued = guard(|| {
+                        let bs = BlindSignature::<CL03<C>>::blind_sign(&ks.pk, &ks.sk, &ks.bases, &zk, Some(&revealed), commitment.cl03Commitment(), ct, cpk, &u, Some(&revealed_idx));
+                        let sig = bs.unblind_sign(&commitment);
+                        (bs, sig.verify_multiattr(&ks.pk, &ks.bases, &msgs))
+                    });
+                    ev.push(json!({"op": "CLIssue", "suite": suite, "key": ki, "n": n, "U": u, "trusted": trusted, "mismatch": "none",
+                        "verify_proof": b3(vp), "signed": issued.is_ok(), "verifies": issued.as_ref().map(|x| x.1).unwrap_or(false)}));
+                    // re-issuing after a revealed attribute changed
+                    if let (Ok((bs, _)), false) = (&issued, revealed.is_empty()) {
+                        let mut m2 = msgs.clone();
+                        // another in-range value for the first revealed attribute
+                        if m2[revealed_idx[0]].value >= 7 {
+                            m2[revealed_idx[0]].value -= 7;
+                        } else {
+                            m2[revealed_idx[0]].value += 7;
+                        }
+                        let rev2: Vec<CL03Message> = revealed_idx.iter().map(|&i| m2[i].clone()).collect();
+                        let r = guard(|| {
+                            let upd = bs.update_signature(Some(&rev2), commitment.cl03Commitment(), &ks.sk, &ks.pk, &ks.bases, Some(&revealed_idx));
+                            let sg = upd.unblind_sign(&commitment);
+                            (sg.verify_multiattr(&ks.pk, &ks.bases, &m2), sg.verify_multiattr(&ks.pk, &ks.bases, &msgs))
+                        });
+                        ev.push(json!({"op": "CLUpdate", "suite": suite, "key": ki, "n": n, "U": u, "new_ok": b3(r.clone().map(|x| x.0)), "old_ok": b3(r.map(|x| x.1))}));
+                    }
+                    // mismatch families (the issuer must not sign): only for a sample of (n, U) in the quick tier
+                    if !thorough && !(n == maxn && (u == vec![n - 1] || u.len() == n)) && !(n == 1) {
+                        continue;
+                    }
+                    let mut m_other = msgs.clone();
+                    m_other[u[0]].value += 1;
+                    let c_other = Commitment::<CL03<C>>::commit_with_pk(&m_other, &ks.pk, &ks.bases, Some(&u));
+                    let u_other: Vec<usize> = if u.len() < n { (0..n).filter(|i| !u.contains(i)).take(u.len().max(1)).collect() } else { vec![0] };
+                    let ct2 = Commitment::<CL03<C>>::commit_with_commitment_pk(&m_other, &ks.cpk_own, Some(&u));
+                    let mut fam: Vec<(&str, Box<dyn Fn() -> bool + '_>)> = vec![];
+                    fam.push(("other_commitment", Box::new(|| zk.verify_proof(c_other.cl03Commitment(), ct, &ks.pk, &ks.bases, cpk, &u))));
+                    if u_other != u && u_other.len() == u.len() {
+                        fam.push(("other_U", Box::new(|| zk.verify_proof(commitment.cl03Commitment(), ct, &ks.pk, &ks.bases, cpk, &u_other))));
+                    }
+                    fam.push(("other_bases", Box::new(|| zk.verify_proof(commitment.cl03Commitment(), ct, &ks.pk, &other.bases, cpk, &u))));
+                    fam.push(("other_pk", Box::new(|| zk.verify_proof(commitment.cl03Commitment(), ct, &other.pk, &ks.bases, cpk, &u))));
+                    if trusted {
+                        fam.push(("other_trusted_commitment", Box::new(|| zk.verify_proof(commitment.cl03Commitment(), Some(ct2.cl03Commitment()), &ks.pk, &ks.bases, Some(&ks.cpk_own), &u))));
+                    }
+                    for (name, f) in fam {
+                        let r = guard(|| f());
+                        let refused = !matches!(r, Ok(true));
+                        ev.push(json!({"op": "CLIssue", "suite": suite, "key": ki, "n": n, "U": u, "trusted": trusted, "mismatch": name, "verify_proof": b3(r), "signed": !refused, "verifies": false}));
+                    }
+                    // blind_sign itself refuses a mismatching proof (observed as the documented panic)
+                    let r = guard(|| BlindSignature::<CL03<C>>::blind_sign(&ks.pk, &ks.sk, &ks.bases, &zk, Some(&revealed), c_other.cl03Commitment(), ct, cpk, &u, Some(&revealed_idx)));
+                    ev.push(json!({"op": "CLIssue", "suite": suite, "key": ki, "n": n, "U": u, "trusted": trusted, "mismatch": "blind_sign_other_commitment", "verify_proof": "false", "signed": r.is_ok(), "verifies": false}));
+                    // every integer leaf of the serialised proof perturbed
+                    let zj = serde_json::to_value(&zk).unwrap();
+                    let leaves = int_leaves(&zj);
+                    ev.push(json!({"op": "CLFormat", "suite": suite, "proof": "zkpok", "n": n, "U": u, "trusted": trusted, "paths": leaves.iter().map(|l| norm_path(&l.0)).collect::<Vec<_>>()}));
+                    for (li, (path, val)) in leaves.iter().enumerate() {
+                        if (li + ki + n) % leaf_stride != 0 {
+                            continue;
+                        }
+                        for (how, nv) in [("+1", val.clone() + 1), ("-1", val.clone() - 1), ("=0", Integer::from(0))] {
+                            if &nv == val {
+                                continue;
+                            }
+                            let mut z2 = zj.clone();
+                            set_leaf(&mut z2, path, &nv);
+                            let r = guard(|| {
+                                let zk2: ZKPoK<CL03<C>> = serde_json::from_value(z2).unwrap();
+                                zk2.verify_proof(commitment.cl03Commitment(), ct, &ks.pk, &ks.bases, cpk, &u)
+                            });
+                            ev.push(json!({"op": "CLLeaf", "suite": suite, "proof": "zkpok", "n": n, "U": u, "trusted": trusted, "path": norm_path(path), "path2": norm_path(path), "how": how, "res": b3(r)}));
+                        }
+                    }
+                }
+            }
+        }
+    }
+}
+
+// ---------------------------------------------------------------------------- C15
+fn drv_pok<C: CLCiphersuite>(keys: &[KeySet], seed: u64, thorough: bool, leaf_stride: usize, ev: &mut Vec<Value>)
+where
+    C::HashAlg: Digest,
+{
+    let mut rng = Rng::new(seed ^ 0x15);
+    let suite = C::SECPARAM * 2;
+    let maxn = if thorough { 5 } else { 3 };
+    for (ki, ks) in keys.iter().enumerate() {
+        let other = &keys[(ki + 1) % keys.len()];
+        for n in 1..=maxn {
+            let msgs = attrs::<C>(&mut rng, n);
+            let sig = Signature::<CL03<C>>::sign_multiattr(&ks.pk, &ks.sk, &ks.bases, &msgs);
+            let bases_n = Bases(ks.bases.0[..n].to_vec());
+            let cpk = CL03CommitmentPublicKey { N: ks.cpk_issuer.N.clone(), h: ks.cpk_issuer.h.clone(), g_bases: ks.cpk_issuer.g_bases[..n].to_vec() };
+            for u in subsets(n) {
+                let revealed: Vec<CL03Message> = (0..n).filter(|i| !u.contains(i)).map(|i| msgs[i].clone()).collect();
+                let pr = guard(|| PoKSignature::<CL03<C>>::proof_gen(sig.cl03Signature(), &cpk, &ks.pk, &bases_n, &msgs, &u));
+                let proof = match pr {
+                    Ok(p) => p,
+                    Err(e) => {
+                        ev.push(json!({"op": "CLPoK", "suite": suite, "key": ki, "n": n, "U": u, "mismatch": "none", "res": "panic", "detail": e}));
+                        continue;
+                    }
+                };
+                let honest = guard(|| proof.proof_verify(&cpk, &ks.pk, &bases_n, &revealed, &u, n));
+                ev.push(json!({"op": "CLPoK", "suite": suite, "key": ki, "n": n, "U": u, "mismatch": "none", "res": b3(honest)}));
+                if !thorough && !(n == maxn || u.len() == n || u.is_empty()) {
+                    continue;
+                }
+                // single edits of the statement
+                let mut fam: Vec<(&str, Result<bool, String>)> = vec![];
+                if !revealed.is_empty() {
+                    let mut r2 = revealed.clone();
+                    r2[0].value += 1;
+                    fam.push(("revealed_changed", guard(|| proof.proof_verify(&cpk, &ks.pk, &bases_n, &r2, &u, n))));
+                }
+                fam.push(("other_pk", guard(|| proof.proof_verify(&cpk, &other.pk, &bases_n, &revealed, &u, n))));
+                let ob = Bases(other.bases.0[..n].to_vec());
+                fam.push(("other_bases", guard(|| proof.proof_verify(&cpk, &ks.pk, &ob, &revealed, &u, n))));
+                let ocpk = CL03CommitmentPublicKey::generate::<C>(Some(ks.pk.N.clone()), Some(n));
+                fam.push(("other_commitment_key", guard(|| proof.proof_verify(&ocpk, &ks.pk, &bases_n, &revealed, &u, n))));
+                if u.len() < n {
+                    // another hidden set of the same size
+                    let u2: Vec<usize> = (0..n).filter(|i| !u.contains(i)).take(u.len()).collect();
+                    if u2.len() == u.len() && u2 != u {
+                        let rv2: Vec<CL03Message> = (0..n).filter(|i| !u2.contains(i)).map(|i| msgs[i].clone()).collect();
+                        fam.push(("other_U", guard(|| proof.proof_verify(&cpk, &ks.pk, &bases_n, &rv2, &u2, n))));
+                    }
+                }
+                if n >= 2 && !revealed.is_empty() {
+                    fam.push(("n_minus_1", guard(|| proof.proof_verify(&cpk, &ks.pk, &bases_n, &revealed[..revealed.len() - 1], &u, n - 1))));
+                }
+                for (name, r) in fam {
+                    ev.push(json!({"op": "CLPoK", "suite": suite, "key": ki, "n": n, "U": u, "mismatch": name, "res": b3(r)}));
+                }
+                let pj = serde_json::to_value(&proof).unwrap();
+                let leaves = int_leaves(&pj);
+                ev.push(json!({"op": "CLFormat", "suite": suite, "proof": "spok", "n": n, "U": u, "trusted": false, "paths": leaves.iter().map(|l| norm_path(&l.0)).collect::<Vec<_>>()}));
+                for (li, (path, val)) in leaves.iter().enumerate() {
+                    if (li + ki + n) % leaf_stride != 0 {
+                        continue;
+                    }
+                    let mut variants = vec![("+1", val.clone() + 1), ("-1", val.clone() - 1), ("=0", Integer::from(0))];
+                    if li + 1 < leaves.len() {
+                        variants.push(("swap", leaves[li + 1].1.clone()));
+                    }
+                    for (how, nv) in variants {
+                        if &nv == val {
+                            continue;
+                        }
+                        let mut p2 = pj.clone();
+                        set_leaf(&mut p2, path, &nv);
+                        if how == "swap" {
+                            set_leaf(&mut p2, &leaves[li + 1].0, val);
+                        }
+                        let r = guard(|| {
+                            let pp: PoKSignature<CL03<C>> = serde_json::from_value(p2).unwrap();
+                            pp.proof_verify(&cpk, &ks.pk, &bases_n, &revealed, &u, n)
+                        });
+                        let path2 = if how == "swap" { norm_path(&leaves[li + 1].0) } else { norm_path(path) };
+                        ev.push(json!({"op": "CLLeaf", "suite": suite, "proof": "spok", "n": n, "U": u, "trusted": false, "path": norm_path(path), "path2": path2, "how": how, "res": b3(r)}));
+                    }
+                }
+            }
+        }
+    }
+}
+
+// ---------------------------------------------------------------------------- C16
+fn drv_boudot<C: CLCiphersuite>(keys: &[KeySet], seed: u64, thorough: bool, ev: &mut Vec<Value>)
+where
+    C::HashAlg: Digest,
+{
+    let mut rng = Rng::new(seed ^ 0x16);
+    let suite = C::SECPARAM * 2;
+    for (ki, ks) in keys.iter().enumerate() {
+        let other = &keys[(ki + 1) % keys.len()];
+        // base pairs: (a_0, b) over the issuer modulus, (g_0, h) of a commitment key over the issuer / own modulus
+        let basesets: Vec<(&str, Integer, Integer, Integer)> = vec![
+            ("signer", ks.bases.0[0].clone(), ks.pk.b.clone(), ks.pk.N.clone()),
+            ("cpk_issuer", ks.cpk_issuer.g_bases[0].clone(), ks.cpk_issuer.h.clone(), ks.cpk_issuer.N.clone()),
+            ("cpk_own", ks.cpk_own.g_bases[0].clone(), ks.cpk_own.h.clone(), ks.cpk_own.N.clone()),
+        ];
+        let widths: Vec<(&str, Integer)> = {
+            let mut w = vec![("1", Integer::from(1)), ("2", Integer::from(2)), ("3", Integer::from(3)), ("2^8", Integer::from(256)), ("2^64", Integer::from(2).pow(64)), ("2^256-1", Integer::from(2).pow(256) - 1)];
+            if thorough {
+                w.push(("2^1024-1", Integer::from(2).pow(1024) - 1));
+            }
+            w
+        };
+        for (bi, (bname, g, h, n)) in basesets.iter().enumerate() {
+            if !thorough && bi > 0 && ki > 0 {
+                continue;
+            }
+            for (wname, w) in &widths {
+                let a = if rng.below(2) == 0 { Integer::from(0) } else { rng.bits(64) };
+                let b = (&a + w).complete();
+                let mid: Integer = a.clone() + (w.clone() / 2u32);
+                let mut xs: Vec<(&str, Integer)> = vec![("a", a.clone()), ("b", b.clone()), ("mid", mid)];
+                if *w > 2 {
+                    xs.push(("a+1", a.clone() + 1));
+                    xs.push(("b-1", b.clone() - 1));
+                    xs.push(("random", a.clone() + rng.below_int(w)));
+                }
+                for (xname, x) in &xs {
+                    let r = rng.bits(C::ln);
+                    let cv = (pow_signed_big(g, x, n) * pow_signed_big(h, &r, n)).modulo(n);
+                    let com = make_commitment(&cv, &r);
+                    let pr = guard(|| Boudot2000RangeProof::prove::<C::HashAlg>(x, &com, g, h, n, &a, &b));
+                    let Ok(proof) = pr else {
+                        ev.push(json!({"op": "CLRange", "suite": suite, "key": ki, "bases": bname, "width": wname, "x": xname, "case": "honest", "res": "panic"}));
+                        continue;
+                    };
+                    ev.push(json!({"op": "CLRange", "suite": suite, "key": ki, "bases": bname, "width": wname, "x": xname, "case": "honest", "res": b3(guard(|| proof.verify::<C::HashAlg>(g, h, n, &a, &b)))}));
+                    if *xname != "mid" && !thorough {
+                        continue;
+                    }
+                    // against other bounds / bases / modulus
+                    let a2 = a.clone() + 1;
+                    let b2 = b.clone() + 1;
+                    ev.push(json!({"op": "CLRange", "suite": suite, "key": ki, "bases": bname, "width": wname, "x": xname, "case": "other_bounds", "res": b3(guard(|| proof.verify::<C::HashAlg>(g, h, n, &a2, &b2)))}));
+                    ev.push(json!({"op": "CLRange", "suite": suite, "key": ki, "bases": bname, "width": wname, "x": xname, "case": "other_bases", "res": b3(guard(|| proof.verify::<C::HashAlg>(h, g, n, &a, &b)))}));
+                    ev.push(json!({"op": "CLRange", "suite": suite, "key": ki, "bases": bname, "width": wname, "x": xname, "case": "other_modulus", "res": b3(guard(|| proof.verify::<C::HashAlg>(g, h, &other.pk.N, &a, &b)))}));
+                    // transplants: the sub-proofs of the honest proof carried over to another commitment
+                    let pj = serde_json::to_value(&proof).unwrap();
+                    let big = Integer::from(2).pow(300);
+                    let targets: Vec<(&str, Integer)> = vec![("a-1", a.clone() - 1), ("b+1", b.clone() + 1), ("a-2^k", (&a - &big).complete()), ("b+2^k", (&b + &big).complete())];
+                    for (tname, tx) in targets {
+                        let r2 = rng.bits(C::ln);
+                        let e2 = (pow_signed_big(g, &tx, n) * pow_signed_big(h, &r2, n)).modulo(n);
+                        let res = guard(|| transplant::<C>(&pj, &e2, g, n, &a, &b).verify::<C::HashAlg>(g, h, n, &a, &b));
+                        ev.push(json!({"op": "CLRange", "suite": suite, "key": ki, "bases": bname, "width": wname, "x": xname, "case": format!("transplant:{tname}"), "res": b3(res)}));
+                    }
+                    let rnd = rng.below_int(n).pow_mod(&Integer::from(2), n).unwrap();
+                    let res = guard(|| transplant::<C>(&pj, &rnd, g, n, &a, &b).verify::<C::HashAlg>(g, h, n, &a, &b));
+                    ev.push(json!({"op": "CLRange", "suite": suite, "key": ki, "bases": bname, "width": wname, "x": xname, "case": "transplant:random_element", "res": b3(res)}));
+                    // every integer leaf +-1
+                    let leaves = int_leaves(&pj);
+                    ev.push(json!({"op": "CLFormat", "suite": suite, "proof": "range", "n": 0, "U": [], "trusted": false, "paths": leaves.iter().map(|l| norm_path(&l.0)).collect::<Vec<_>>()}));
+                    for (path, val) in leaves.iter() {
+                        for (how, nv) in [("+1", val.clone() + 1), ("-1", val.clone() - 1)] {
+                            let mut p2 = pj.clone();
+                            set_leaf(&mut p2, path, &nv);
+                            let res = guard(|| {
+                                let pp: Boudot2000RangeProof = serde_json::from_value(p2).unwrap();
+                                pp.verify::<C::HashAlg>(g, h, n, &a, &b)
+                            });
+                            ev.push(json!({"op": "CLLeaf", "suite": suite, "proof": "range", "n": 0, "U": [], "trusted": false, "path": norm_path(path), "path2": norm_path(path), "how": how, "res": b3(res)}));
+                        }
+                    }
+                }
+                // the honest prover outside [a, b] must not produce an accepted proof
+                for (xname, x) in [("a-1", a.clone() - 1), ("b+1", b.clone() + 1)] {
+                    let r = rng.bits(C::ln);
+                    let cv = (pow_signed_big(g, &x, n) * pow_signed_big(h, &r, n)).modulo(n);
+                    let com = make_commitment(&cv, &r);
+                    let res = guard(|| Boudot2000RangeProof::prove::<C::HashAlg>(&x, &com, g, h, n, &a, &b).verify::<C::HashAlg>(g, h, n, &a, &b));
+                    ev.push(json!({"op": "CLRange", "suite": suite, "key": ki, "bases": bname, "width": wname, "x": xname, "case": "outside", "res": b3(res)}));
+                }
+            }
+        }
+    }
+}
+
+/// carry the sub-proofs of an honest range proof over to the commitment value e2:
+/// E := e2, E' := e2^(2^T), E_a1 := E_a(e2) / E_a2, E_b1 := E_b(e2) / E_b2, everything else reused
+fn transplant<C: CLCiphersuite>(pj: &Value, e2: &Integer, g: &Integer, n: &Integer, a: &Integer, b: &Integer) -> Boudot2000RangeProof {
+    let (t, l) = (128u32, 40u32);
+    let tt = 2 * (t + l + 1) + (b - a).complete().significant_bits();
+    let mut p = pj.clone();
+    let eprime = e2.clone().pow_mod(&Integer::from(2).pow(tt), n).unwrap();
+    let sq = Integer::from((b - a).complete().sqrt_ref());
+    let shift = Integer::from(2).pow(l + t + tt / 2 + 1) * sq;
+    let aa = Integer::from(2).pow(tt) * a - &shift;
+    let bb = Integer::from(2).pow(tt) * b + &shift;
+    let ea = (eprime.clone() * pow_signed_big(g, &(-aa), n)).modulo(n);
+    let eb = (pow_signed_big(g, &bb, n) * eprime.clone().invert(n).unwrap()).modulo(n);
+    let get = |v: &Value, k: &str| -> Integer { serde_json::from_value(v["proof_of_tolerance"][k].clone()).unwrap() };
+    let ea2 = get(pj, "E_a_2");
+    let eb2 = get(pj, "E_b_2");
+    let ea1 = (ea * ea2.invert(n).unwrap()).modulo(n);
+    let eb1 = (eb * eb2.invert(n).unwrap()).modulo(n);
+    p["E"] = serde_json::to_value(e2).unwrap();
+    p["E_prime"] = serde_json::to_value(&eprime).unwrap();
+    p["proof_of_tolerance"]["E_a_1"] = serde_json::to_value(&ea1).unwrap();
+    p["proof_of_tolerance"]["E_b_1"] = serde_json::to_value(&eb1).unwrap();
+    serde_json::from_value(p).unwrap()
+}
+
+// ---------------------------------------------------------------------------- C17 / C19
+fn drv_leak<C: CLCiphersuite>(keys: &[KeySet], seed: u64, thorough: bool, ev: &mut Vec<Value>)
+where
+    C::HashAlg: Digest,
+{
+    let mut rng = Rng::new(seed ^ 0x17);
+    let suite = C::SECPARAM * 2;
+    let maxn = if thorough { 4 } else { 3 };
+    for (ki, ks) in keys.iter().enumerate() {
+        for n in 1..=maxn {
+            let msgs = attrs::<C>(&mut rng, n);
+            let sig = Signature::<CL03<C>>::sign_multiattr(&ks.pk, &ks.sk, &ks.bases, &msgs);
+            let (e, _s, v) = sig_parts(sig.cl03Signature());
+            let bases_n = Bases(ks.bases.0[..n].to_vec());
+            let cpk = CL03CommitmentPublicKey { N: ks.cpk_issuer.N.clone(), h: ks.cpk_issuer.h.clone(), g_bases: ks.cpk_issuer.g_bases[..n].to_vec() };
+            for u in subsets(n).into_iter().filter(|u| !u.is_empty()) {
+                if !thorough && n == maxn && u.len() == 2 {
+                    continue;
+                }
+                // ---- issuance proof
+                verif_hooks::start_recording();
+                let commitment = Commitment::<CL03<C>>::commit_with_pk(&msgs, &ks.pk, &ks.bases, Some(&u));
+                let zk = ZKPoK::<CL03<C>>::generate_proof(&msgs, commitment.cl03Commitment(), None, &ks.pk, &ks.bases, None, &u);
+                let draws = verif_hooks::take_draws();
+                verif_hooks::stop_recording();
+                let mut lens: std::collections::BTreeMap<u32, usize> = Default::default();
+                for d in draws.iter().filter(|d| d.site == "random_bits") {
+                    *lens.entry(d.bits).or_default() += 1;
+                }
+                ev.push(json!({"op": "CLMaskLens", "suite": suite, "proof": "zkpok", "n": n, "U": u, "lens": lens.iter().map(|(k, v)| json!([k, v])).collect::<Vec<_>>()}));
+                let zj = serde_json::to_value(&zk).unwrap();
+                let mut secrets: Vec<(String, Integer)> = u.iter().map(|&i| (format!("m{i}"), msgs[i].value.clone())).collect();
+                secrets.push(("r".into(), commitment.randomness().clone()));
+                let pairs: Vec<(&str, Integer, Integer)> = {
+                    let mut p: Vec<(&str, Integer, Integer)> = u.iter().map(|&i| ("a_i,b", ks.bases.0[i].clone(), ks.pk.b.clone())).collect();
+                    p.push(("a_0,b", ks.bases.0[0].clone(), ks.pk.b.clone()));
+                    p
+                };
+                leak_events::<C>("zkpok", suite, ki, n, &u, &zj, &secrets, &pairs, &ks.pk.N, None, ev);
+                // dictionary attack with two candidate values for a hidden attribute
+                let cand = [msgs[u[0]].value.clone(), msgs[u[0]].value.clone() + 1];
+                let confirmed = dictionary(&zj, &cand, &ks.bases.0[u[0]], &ks.pk.b, &ks.pk.N);
+                ev.push(json!({"op": "CLDictionary", "suite": suite, "proof": "zkpok", "n": n, "U": u, "confirmed": confirmed}));
+                // responses: challenge recomputed as the verifier does
+                mask_events::<C>("zkpok", suite, n, &u, &zj, &secrets, ks, ev);
+                // ---- signature proof
+                verif_hooks::start_recording();
+                let proof = PoKSignature::<CL03<C>>::proof_gen(sig.cl03Signature(), &cpk, &ks.pk, &bases_n, &msgs, &u);
+                let draws = verif_hooks::take_draws();
+                verif_hooks::stop_recording();
+                let mut lens: std::collections::BTreeMap<u32, usize> = Default::default();
+                for d in draws.iter().filter(|d| d.site == "random_bits") {
+                    *lens.entry(d.bits).or_default() += 1;
+                }
+                ev.push(json!({"op": "CLMaskLens", "suite": suite, "proof": "spok", "n": n, "U": u, "lens": lens.iter().map(|(k, v)| json!([k, v])).collect::<Vec<_>>()}));
+                let pj = serde_json::to_value(&proof).unwrap();
+                let mut secrets: Vec<(String, Integer)> = u.iter().map(|&i| (format!("m{i}"), msgs[i].value.clone())).collect();
+                secrets.push(("e".into(), e.clone()));
+                secrets.push(("v".into(), v.clone()));
+                let pairs: Vec<(&str, Integer, Integer)> = (0..n).map(|i| ("g_i,h", cpk.g_bases[i].clone(), cpk.h.clone())).collect();
+                leak_events::<C>("spok", suite, ki, n, &u, &pj, &secrets, &pairs, &cpk.N, Some((&v, &cpk.g_bases[0])), ev);
+                mask_events::<C>("spok", suite, n, &u, &pj, &secrets, ks, ev);
+            }
+        }
+    }
+}
+
+/// C17: for every (value, randomness)-shaped pair of the serialised proof and every public base
+/// pair: does value = g^x * h^randomness hold for a hidden secret x?  Can v be recovered?
+fn leak_events<C: CLCiphersuite>(pname: &str, suite: u32, ki: usize, n: usize, u: &[usize], pj: &Value, secrets: &[(String, Integer)], pairs: &[(&str, Integer, Integer)], modulus: &Integer,
+    vrec: Option<(&Integer, &Integer)>, ev: &mut Vec<Value>) {
+    let _ = ki;
+    let leaves = int_leaves(pj);
+    // (value, randomness) shaped pairs: siblings named value / randomness
+    let mut npairs = 0;
+    let mut matches = vec![];
+    for (path, val) in &leaves {
+        if !path.ends_with("/value") {
+            continue;
+        }
+        let rp = format!("{}/randomness", &path[..path.len() - 6]);
+        let Some((_, rnd)) = leaves.iter().find(|(p, _)| *p == rp) else { continue };
+        npairs += 1;
+        for (bname, g, h) in pairs {
+            for (sname, x) in secrets {
+                let c = (pow_signed_big(g, x, modulus) * pow_signed_big(h, rnd, modulus)).modulo(modulus);
+                if &c == val {
+                    matches.push(json!({"pathV": norm_path(path), "pathR": norm_path(&rp), "bases": bname, "secret": sname}));
+                }
+            }
+        }
+        if let Some((v, g0)) = vrec {
+            // v = Cv * g0^(-w)
+            let cand = (val.clone() * pow_signed_big(g0, &(-rnd.clone()), modulus)).modulo(modulus);
+            if &cand == v {
+                matches.push(json!({"pathV": norm_path(path), "pathR": norm_path(&rp), "bases": "g_0", "secret": "v (recovered)"}));
+            }
+        }
+    }
+    ev.push(json!({"op": "CLOpenings", "suite": suite, "proof": pname, "n": n, "U": u, "pairs": npairs, "matches": matches}));
+}
+
+fn dictionary(pj: &Value, cand: &[Integer], g: &Integer, h: &Integer, n: &Integer) -> bool {
+    let leaves = int_leaves(pj);
+    for (path, val) in &leaves {
+        if !path.ends_with("/value") {
+            continue;
+        }
+        let rp = format!("{}/randomness", &path[..path.len() - 6]);
+        let Some((_, rnd)) = leaves.iter().find(|(p, _)| *p == rp) else { continue };
+        let hits: Vec<bool> = cand.iter().map(|x| &(pow_signed_big(g, x, n) * pow_signed_big(h, rnd, n)).modulo(n) == val).collect();
+        if hits[0] && !hits[1] {
+            return true;
+        }
+    }
+    false
+}
+
+/// C19: | floor(s / c) - x | and | floor(s / s') - x | as bit lengths, for every response leaf s,
+/// every recomputable challenge c and every secret x
+fn mask_events<C: CLCiphersuite>(pname: &str, suite: u32, n: usize, u: &[usize], pj: &Value, secrets: &[(String, Integer)], ks: &KeySet, ev: &mut Vec<Value>)
+where
+    C::HashAlg: Digest,
+{
+    let leaves = int_leaves(pj);
+    // challenges recomputable from public data
+    let mut challenges: Vec<(String, Integer)> = vec![];
+    for (p, v) in &leaves {
+        if p.ends_with("/challenge") {
+            challenges.push((norm_path(p), v.clone()));
+        }
+    }
+    // nisp2sec challenges: H(g || h || commitment.value || t)
+    for (p, t) in &leaves {
+        if let Some(prefix) = p.strip_suffix("/value/t") {
+            let cv = leaves.iter().find(|(q, _)| *q == format!("{prefix}/commitment/value")).map(|x| x.1.clone());
+            if let Some(cv) = cv {
+                // base pair candidates: (a_i, b) for every i (issuance) -- try all, keep those reproducing the proof equation
+                for a in ks.bases.0.iter().chain(ks.cpk_issuer.g_bases.iter()) {
+                    for h in [&ks.pk.b, &ks.cpk_issuer.h] {
+                        let s_in = a.to_string() + &h.to_string() + &cv.to_string() + &t.to_string();
+                        let c = Integer::from_digits(<C::HashAlg as Digest>::digest(s_in).as_slice(), rug::integer::Order::MsfBe);
+                        challenges.push((format!("{}:nisp2sec", norm_path(prefix)), c));
+                    }
+                }
+            }
+        }
+    }
+    let mut min_sc: (u32, String, String) = (u32::MAX, String::new(), String::new());
+    let mut min_ss: (u32, String, String) = (u32::MAX, String::new(), String::new());
+    let resp: Vec<&(String, Integer)> = leaves.iter().filter(|(p, _)| is_response(p)).collect();
+    for (p, s) in &resp {
+        for (_, c) in &challenges {
+            if *c == 0 {
+                continue;
+            }
+            let q = s.clone().div_rem_floor(c.clone()).0;
+            for (sn, x) in secrets {
+                let d: u32 = (q.clone() - x).abs().significant_bits();
+                if (d as u32) < min_sc.0 {
+                    min_sc = (d, norm_path(p), sn.clone());
+                }
+            }
+        }
+        for (p2, s2) in &resp {
+            if p == p2 || *s2 == 0 {
+                continue;
+            }
+            let q = s.clone().div_rem_floor((*s2).clone()).0;
+            for (sn, x) in secrets {
+                if *x < 1000 {
+                    continue; // tiny attribute values (0, 1) equal small quotients by coincidence
+                }
+                let d: u32 = (q.clone() - x).abs().significant_bits();
+                if (d as u32) < min_ss.0 {
+                    min_ss = (d, format!("{} / {}", norm_path(p), norm_path(p2)), sn.clone());
+                }
+            }
+        }
+    }
+    ev.push(json!({"op": "CLMask", "suite": suite, "proof": pname, "n": n, "U": u, "kind": "s/c", "bits": min_sc.0.min(100000), "path": min_sc.1, "secret": min_sc.2, "responses": resp.len(), "challenges": challenges.len()}));
+    ev.push(json!({"op": "CLMask", "suite": suite, "proof": pname, "n": n, "U": u, "kind": "s/s'", "bits": min_ss.0.min(100000), "path": min_ss.1, "secret": min_ss.2, "responses": resp.len(), "challenges": challenges.len()}));
+}
+
+fn is_response(p: &str) -> bool {
+    let last = p.rsplit('/').next().unwrap_or("");
+    let parent = p.rsplit('/').nth(1).unwrap_or("");
+    matches!(last, "s1" | "s2" | "s_1" | "s_2" | "s_3" | "s_4" | "s_6" | "s_7" | "s_8" | "s_9" | "d_1" | "d_2")
+        || ((parent == "s1" || parent == "s_5" || parent == "d") && last.parse::<usize>().is_ok())
+        || (last == "d" && !p.contains("range") && !p.contains("proof_ss"))
+}
+
+// ---------------------------------------------------------------------------- C18
+fn drv_keys<C: CLCiphersuite>(keys: &[KeySet], seed: u64, ev: &mut Vec<Value>)
+where
+    C::HashAlg: Digest,
+{
+    let suite = C::SECPARAM * 2;
+    for (ki, ks) in keys.iter().enumerate() {
+        let (p, q, n) = (&ks.sk.p, &ks.sk.q, &ks.pk.N);
+        let half = |x: &Integer| (x.clone() - 1u32) / 2u32;
+        let qr = |x: &Integer| *x > 1 && x < n && x.clone().gcd(n) == 1 && jacobi(x, p) == 1 && jacobi(x, q) == 1;
+        let mut elems = vec![("b", ks.pk.b.clone()), ("c", ks.pk.c.clone())];
+        for (i, a) in ks.bases.0.iter().enumerate() {
+            elems.push((if i == 0 { "a_0" } else { "a_i" }, a.clone()));
+        }
+        let all_qr = elems.iter().all(|(_, x)| qr(x));
+        // commitment key over the issuer modulus: residuosity checkable with p, q
+        let cq = qr(&ks.cpk_issuer.h) && ks.cpk_issuer.g_bases.iter().all(|g| qr(g));
+        let own = &ks.cpk_own;
+        let own_range = own.h.clone().gcd(&own.N) == 1 && own.h > 1 && own.h < own.N && own.g_bases.iter().all(|g| *g > 1 && g < &own.N && g.clone().gcd(&own.N) == 1);
+        let rt = guard(|| {
+            let b = ks.pk.to_bytes::<CL03<C>>();
+            let pk2 = CL03PublicKey::from_bytes::<CL03<C>>(&b);
+            let sb = ks.sk.to_bytes::<CL03<C>>();
+            let sk2 = CL03SecretKey::from_bytes::<CL03<C>>(&sb);
+            let j: CL03PublicKey = serde_json::from_str(&serde_json::to_string(&ks.pk).unwrap()).unwrap();
+            let j2: CL03SecretKey = serde_json::from_str(&serde_json::to_string(&ks.sk).unwrap()).unwrap();
+            let j3: CL03CommitmentPublicKey = serde_json::from_str(&serde_json::to_string(&ks.cpk_own).unwrap()).unwrap();
+            pk2 == ks.pk && sk2 == ks.sk && j == ks.pk && j2 == ks.sk && j3 == ks.cpk_own
+        });
+        ev.push(json!({"op": "CLKeyFacts", "suite": suite, "key": ki, "secparam": C::SECPARAM,
+            "n_is_pq": &(p.clone() * q) == n, "p_ne_q": p != q,
+            "p_prime": miller_rabin(p, 20), "q_prime": miller_rabin(q, 20), "p_half_prime": miller_rabin(&half(p), 20), "q_half_prime": miller_rabin(&half(q), 20),
+            "p_bits": p.significant_bits(), "q_bits": q.significant_bits(),
+            "elements_qr": all_qr, "cpk_issuer_qr": cq, "cpk_issuer_modulus_is_issuer": &ks.cpk_issuer.N == n, "cpk_own_in_range": own_range,
+            "cpk_own_modulus_bits": own.N.significant_bits(), "roundtrip": b3(rt)}));
+    }
+    // random_bits / rand_int
+    use zkryptium::utils::random::{rand_int, random_bits};
+    let mut ok_bits = true;
+    for nb in [2u32, 3, 8, 64, 255, 256, 257, 1024] {
+        for _ in 0..50 {
+            let x = random_bits(nb);
+            ok_bits &= x.significant_bits() == nb;
+        }
+    }
+    let mut seen = std::collections::BTreeSet::new();
+    let mut in_range = true;
+    for _ in 0..400 {
+        let x = rand_int(Integer::from(-2), Integer::from(1));
+        in_range &= x >= -2 && x <= 1;
+        seen.insert(x.to_i32().unwrap());
+    }
+    let _ = seed;
+    ev.push(json!({"op": "CLRandomFacts", "suite": suite, "random_bits_exact": ok_bits, "rand_int_in_range": in_range, "rand_int_endpoints": seen.contains(&-2) && seen.contains(&1), "rand_int_values": seen.len()}));
+}
+
+fn main() {
+    let args: Vec<String> = std::env::args().collect();
+    if args.len() < 3 {
+        eprintln!("usage: zkv-cl <sig|blind|pok|boudot|leak|keys> <out.ndjson> [--keys N] [--thorough] [--suite 1024|2048] [--derivs file] [--leaf-stride N]");
+        std::process::exit(2);
+    }
+    std::panic::set_hook(Box::new(|_| {}));
+    let seed: u64 = std::env::var("VERIF_SEED").ok().and_then(|s| s.parse().ok()).unwrap_or(1);
+    let (mut nkeys, mut thorough, mut suite, mut derivs, mut stride) = (2usize, false, 1024u32, None::<String>, 5usize);
+    let mut i = 3;
+    while i < args.len() {
+        match args[i].as_str() {
+            "--keys" => { nkeys = args[i + 1].parse().unwrap(); i += 2; }
+            "--thorough" => { thorough = true; i += 1; }
+            "--suite" => { suite = args[i + 1].parse().unwrap(); i += 2; }
+            "--derivs" => { derivs = Some(args[i + 1].clone()); i += 2; }
+            "--leaf-stride" => { stride = args[i + 1].parse().unwrap(); i += 2; }
+            _ => { eprintln!("bad argument {}", args[i]); std::process::exit(2); }
+        }
+    }
+    let nkeys = nkeys.max(2);
+    let dv: Vec<Value> = derivs.map(|p| std::fs::read_to_string(p).unwrap().lines().map(|l| serde_json::from_str(l).unwrap()).collect()).unwrap_or_default();
+    let mut ev: Vec<Value> = vec![];
+    fn go<C: CLCiphersuite>(cmd: &str, nkeys: usize, seed: u64, thorough: bool, dv: &[Value], stride: usize, ev: &mut Vec<Value>)
+    where
+        C::HashAlg: Digest,
+    {
+        let keys = gen_keys::<C>(nkeys, 5);
+        match cmd {
+            "sig" => drv_sig::<C>(&keys, seed, thorough, dv, ev),
+            "blind" => drv_blind::<C>(&keys, seed, thorough, stride, ev),
+            "pok" => drv_pok::<C>(&keys, seed, thorough, stride, ev),
+            "boudot" => drv_boudot::<C>(&keys, seed, thorough, ev),
+            "leak" => drv_leak::<C>(&keys, seed, thorough, ev),
+            "keys" => drv_keys::<C>(&keys, seed, ev),
+            _ => { eprintln!("unknown driver {cmd}"); std::process::exit(2); }
+        }
+    }
+    let _ = Sha256::new();
+    match suite {
+        1024 => go::<CL1024Sha256>(&args[1], nkeys, seed, thorough, &dv, stride, &mut ev),
+        2048 => go::<CL2048Sha256>(&args[1], nkeys, seed, thorough, &dv, stride, &mut ev),
+        _ => { eprintln!("unknown suite"); std::process::exit(2); }
+    }
+    let mut out = String::new();
+    for e in &ev {
+        out.push_str(&serde_json::to_string(e).unwrap());
+        out.push('\n');
+    }
+    std::fs::write(&args[2], out).unwrap();
+    println!("recorded cl events={}", ev.len());
+    let _ = <CL1024Sha256 as Ciphersuite>::HashAlg::new();
+}
